@@ -459,6 +459,8 @@ def run(chk):
         chk.require_theorems('Properties.C20', THEOREMS)
         from harness import c20b_theorems
         chk.require_theorems('Properties.C20b', c20b_theorems.THEOREMS)    # byte idempotence for --rearrange / --make-variables
+        from harness import c20c_theorems
+        chk.require_theorems('Properties.C20c', c20c_theorems.THEOREMS)    # ... for the reify options, under the certificate
     n = 3000 if chk.tier == 'quick' else 40000
     res = common.pmap(one_case, [(i, chk.seed, chk.tier) for i in range(n)], chunk=10)
     for idx, findings in enumerate(res):
